@@ -702,7 +702,7 @@ class FortranCodegen(Stringifier):
             [...body...]
           END IF [name]
         """
-        if o.inline:
+        if o.inline and len(o.body) == 1 and not o.else_body:
             # No indentation and only a single body node
             cond = self.visit(o.condition, **kwargs)
             d = self.depth
